@@ -16,8 +16,11 @@ N_A = rs("t/holder", [["record", "sub"], ["string", "tag"]], [A, "'h'"])
 N_X = rs("t/holders", [["record[]", "subs"], ["record", "one"]], [[X, X], None])
 G = {"group": "g/ac", "members": [A, C]}
 G_X = {"group": "g/x", "members": [X, E]}
+# same group name and flattened field list as G, split over other member types
+G_ALT = {"group": "g/ac", "members": [rs("t/a1", [["string", "a"]], ["'va'"]),
+                                      rs("t/c1", [["varint", "n"], ["path", "p"], ["datetime", "ts"]], ["1", "windows_path('C:\\c')", "dt(2020,6,1,12,0,0,5,tz=off(5,30))"])]}
 
-SHAPES = {"A": A, "A2": A2, "C": C, "BIG": BIG, "E": E, "N_A": N_A, "N_X": N_X, "G": G, "G_X": G_X}
+SHAPES = {"A": A, "A2": A2, "C": C, "BIG": BIG, "E": E, "N_A": N_A, "N_X": N_X, "G": G, "G_X": G_X, "G_ALT": G_ALT}
 
 
 def small(spec):
@@ -72,7 +75,7 @@ def cases(tier, seed):
     import itertools
 
     for k in range(1, L + 1):
-        pool = names if k <= 3 else ["A", "A2", "N_X", "G_X", "BIG", "E"]
+        pool = names if k <= 2 else (["A", "A2", "C", "N_A", "N_X", "G", "G_X", "G_ALT", "BIG"] if k == 3 else ["A", "A2", "N_X", "G_X", "G", "G_ALT"])
         for seq in itertools.product(pool, repeat=k):
             yield {"kind": "s4", "t": "seq", "shape": list(seq), "records": [SHAPES[n] for n in seq]}
     # S5 atoms wrapped as record / record[] / grouped member
